@@ -494,7 +494,10 @@ func c10ForkProgram(dims []c10Dim) string {
 	if n > 1 {
 		callee = "P1"
 	}
-	fmt.Fprintf(&sb, "map call %s(\n    v0 = split %s,\n)\n", callee, c10DimLiteral(dims[0]))
+	// the top-level call is a pipeline call (MakePipelineCallGraph does not
+	// resolve the outputs of a directly mapped top-level stage call)
+	fmt.Fprintf(&sb, "pipeline P0(\n    in  int unit,\n    out int unit,\n)\n{\n    map call %s(\n        v0 = split %s,\n    )\n\n    return (\n        unit = self.unit,\n    )\n}\n\ncall P0(\n    unit = 1,\n)\n",
+		callee, c10DimLiteral(dims[0]))
 	return sb.String()
 }
 
@@ -745,7 +748,7 @@ func c10Gen(tier string, r *hx.Rng) {
 		}
 		refs := i%3 == 0
 		e := c10RandExp(r, depth, maxw, refs)
-		if e.k != 'M' && e.k != 'A' && r.Intn(3) != 0 {
+		if e.k != 'M' && e.k != 'A' && (e.k == 'R' || r.Intn(3) != 0) {
 			// make sure most cases have a literal at the top
 			e = &gexp{k: 'M', st: false, keys: []string{"k"}, sub: []*gexp{e}}
 		}
